@@ -256,11 +256,31 @@ def build_case(group, base, rnd):
         if rnd.random() < 0.15:
             stmts.append(rnd.choice([apm.data(".word", apm.num(rnd.randrange(0x10000))), apm.blk(".blkb", apm.num(2 * rnd.randrange(0, 6))),
                                      apm.data(".byte", apm.num(1), apm.num(2))]))
+    if rnd.random() < 0.4 and len(stmts) > 30:
+        # a run of the statements as the body of a '.repeat': every copy is a statement of its own, at its own address
+        a = rnd.randrange(1, len(stmts) - 25)
+        b = a + rnd.randrange(5, 25)
+        stmts[a:b] = [apm.repeat(apm.num(rnd.choice([2, 2, 3])), stmts[a:b])]
     for name, v in syms:
         stmts.append(apm.assign(name, apm.num(v)))
+    layout = rnd.choice(["plain", "plain", "link-last", "included", "included-link-last"])
+    if layout != "plain":
+        # the same statements while every address is still symbolic: the base is stated after the code, and/or the code sits in an
+        # included file that starts at a non-zero offset of the including one
+        link, body = stmts[0], stmts[1:]
+        if layout == "link-last":
+            prog = apm.Program([apm.SrcFile("main.mac", body + [link])])
+        else:
+            pre = [apm.blk(".blkb", apm.num(2 * rnd.randrange(1, 30))), apm.data(".word", apm.num(rnd.randrange(0x10000)))]
+            main = ([link] if layout == "included" else []) + pre + [apm.include("part.mac"), apm.data(".word", apm.num(0o125252))] + \
+                   ([link] if layout != "included" else [])
+            prog = apm.Program([apm.SrcFile("main.mac", main)], aux={"part.mac": apm.SrcFile("part.mac", body)})
+        return {"kind": "prog", "layout": layout, "prog": apm.to_json(prog), "base": base, "text": apm.r_file(prog.files[0])}
     f = apm.SrcFile("/c01/main.mac", stmts)
     return {"kind": "prog", "text": apm.r_file(f), "base": base,
-            "stmts": [[st.k, getattr(st, "name", None) or getattr(st, "d", None), _json_ops(st)] for st in stmts]}
+            "stmts": [[st.k, getattr(st, "name", None) or getattr(st, "d", None), _json_ops(st)] for st in stmts]} \
+        if not any(st.k == "repeat" for st in stmts) else \
+        {"kind": "prog", "layout": "plain+repeat", "prog": apm.to_json(apm.Program([f])), "base": base, "text": apm.r_file(f)}
 
 
 def _json_ops(st):
@@ -302,7 +322,7 @@ def run_case(case, cnt=None):
 
     # rebuild the APM program from the JSON statements (replay does not need the generator)
     stmts = []
-    for k, name, ops in case["stmts"]:
+    for k, name, ops in case.get("stmts", []):
         ops = [_tup(o) for o in ops]
         if k == "insn":
             stmts.append(apm.insn(name, *ops))
@@ -314,13 +334,25 @@ def run_case(case, cnt=None):
             stmts.append(apm.link(ops[0]))
         elif k == "assign":
             stmts.append(apm.assign(name, ops[0]))
-    prog = apm.Program([apm.SrcFile("/c01/main.mac", stmts)])
+    prog = apm.Program([apm.SrcFile("/c01/main.mac", stmts)]) if "prog" not in case else apm.from_json(case["prog"])
     try:
         ref = apm.Ref(prog).run()
     except (apm.RefError, apm.Unmodelled) as ex:
         viol(f"generator produced a program the reference rejects: {ex}")
         return out
-    o = asm.assemble([("/c01/main.mac", case["text"])], wall=120)
+    if "prog" in case:
+        import os
+        import shutil
+        import tempfile
+        from vlib import refcheck
+        sub = tempfile.mkdtemp(prefix="c01-", dir=os.getcwd())
+        try:
+            o = asm.assemble(refcheck.materialise(prog, refcheck.render_all(prog), sub), wall=120)
+        finally:
+            shutil.rmtree(sub, ignore_errors=True)
+        cnt["symbolic_address_programs"] = cnt.get("symbolic_address_programs", 0) + 1
+    else:
+        o = asm.assemble([("/c01/main.mac", case["text"])], wall=120)
     if o.cls == "stall":
         return out
     if o.cls != "ok":
